@@ -1,7 +1,7 @@
 (* C18, not property obligations: statements the faithful model of the UNREPAIRED code violates, each with a
    concrete witness checked by vm_compute.  The same inputs were replayed on the real code by the harness
    (monitor signatures in parentheses). *)
-From SG Require Import Base.Prelude C18.Resync C18.SetLemmas C18.ResyncProofs C18.AccessProofs C18.FinalProofs.
+From SG Require Import Base.Prelude C18.Resync C18.SetLemmas C18.ResyncProofs C18.AccessProofs C18.FinalProofs C18.Run C18.RunTheorems C18.RunTheorems2.
 Open Scope N_scope.
 
 (* bodies are numbers; body 0 is the plain deletion *)
@@ -128,3 +128,43 @@ Lemma fresh_displaced_winner_leaf_channels_lost :
   map (fun d => map (fun l => (l_rev l, is_cur d l, leaf_chans d l, vchans (l_new (l_body l)))) (d_leaves d)) db
   = [[((1, 1), false, [], [2]); ((1, 26), true, [1], [1])]].
 Proof. vm_compute. reflexivity. Qed.
+
+(* ------------------------------------------------------------------------------------------------
+   6. Found while deepening C18 (run model, Run.v; signature resync-reset-after-interrupted-run-principals-stale,
+   replayed on the real code by harness/db/verif_c18_run_test.go).  invalidatePrincipals invalidates the
+   principals only when docs_changed of THIS run id is positive.  A run that is stopped after it has rewritten the
+   documents, and is then started again with `reset` (or with a different collection set, or after a crash that
+   lost the counter), finds nothing left to change: it reports completed with docs_changed = 0 and never
+   invalidates -- every user keeps the channels / roles the OLD function granted.
+   Documents 1 (body 3) and 2 (body 5); the old function grants user 1 the channel named by the body, the new one
+   channel body + 20; user 1 is loaded before the run. *)
+Definition q_old (b : N) : verdict := Ok [b] [(PU 1, b)] [].
+Definition q_new (b : N) : verdict := Ok [b + 10] [(PU 1, b + 20)] [].
+Definition q_col (id : N) : N := 0.
+Definition q_ps : princs := warm (@nil (doc N)) (mkPs [mkUser 1 [2] [] None None] []).
+Definition q_st0 : rst N :=
+  rrun 0 q_col (fun _ => q_old) [0] (mkSw true true) (rinit [] q_ps [])
+       [OWrite (mkW 1 (1, 1) [] 3 false); OWrite (mkW 2 (1, 1) [] 5 false); OLoad 1].
+Definition q_ops (reset : bool) : list (rop N) :=
+  [OStart false false []; OVisit 0 0; OVisit 0 0; OStop;          (* every document processed, then stopped *)
+   OStart reset false []; OVisit 0 0; OVisit 0 0; OFinish [];     (* started again: completes *)
+   OLoad 1].
+Definition q_st (reset : bool) : rst N := rrun 0 q_col (fun _ => q_new) [0] (mkSw true true) q_st0 (q_ops reset).
+Definition q_user (reset : bool) : user := hd (mkUser 0 [] [] None None) (ps_users (r_ps (q_st reset))).
+
+Lemma resync_reset_after_interrupted_run_principals_stale :
+  r_state q_st0 = MNone /\ r_state (q_st true) = MCompleted /\ r_pchanged (q_st true) = 0 /\ r_log (q_st true) = [] /\
+  r_dirty (q_st true) = true /\
+  (* every document carries the new function's channels and grants ... *)
+  map (fun d => (d_id d, d_chans d, d_access d)) (r_docs (q_st true)) = [(1, [13], [(PU 1, 23)]); (2, [15], [(PU 1, 25)])] /\
+  (* ... but the user still holds the old function's grants 3 and 5 and not the new ones *)
+  effective (r_docs (q_st true)) (r_ps (q_st true)) (q_user true) = [2; 3; 5] /\
+  effective (r_docs (q_st true)) (invalidate_all (r_ps (q_st true))) (inval_user (q_user true)) = [2; 23; 25].
+Proof. vm_compute. repeat split; reflexivity. Qed.
+
+(* without `reset` the stopped run is resumed, the counter is restored and the principals are invalidated
+   (C18_single_id_run_invalidates) *)
+Example resync_resumed_run_principals_fresh :
+  r_state (q_st false) = MCompleted /\ r_pchanged (q_st false) = 2 /\ r_log (q_st false) = [[0]] /\ r_dirty (q_st false) = false /\
+  effective (r_docs (q_st false)) (r_ps (q_st false)) (q_user false) = [2; 23; 25].
+Proof. vm_compute. repeat split; reflexivity. Qed.
